@@ -340,7 +340,7 @@ func TestReplay(t *testing.T) {
 		}
 		in := interp.Shared()
 		// the programs of a saved round are run many times: races are reported through the race detector (read from the log by the driver)
-		for k := 0; k < 200; k++ {
+		for k := 0; k < 30; k++ {
 			rr := Round{Programs: r.Programs}
 			if sig, detail := runRoundQuiet(in, &rr); sig != "" {
 				return sig, detail
